@@ -48,6 +48,12 @@ fn main() {
         }
         out.push_str("        _ => None,\n    }\n}\n");
     }
+    // component-level ops: not generic over the float type
+    out.push_str("pub fn dispatch_pn(fmt: u128, a: &[&str]) -> Option<String> {\n    match fmt {\n");
+    for h in floats.iter() {
+        out.push_str(&format!("        0x{h}u128 => Some(op_pn::<0x{h}u128>(a)),\n"));
+    }
+    out.push_str("        _ => None,\n    }\n}\n");
     out.push_str("pub const INT_FORMATS: &[u128] = &[");
     for h in ints.iter() {
         out.push_str(&format!("0x{h}u128, "));
